@@ -10,7 +10,7 @@ import common, build
 PID = "C14"
 N_NEW = 10
 CAPMAX = 512
-FILES = {0: ["E"], 1: ["F", "G"], 2: ["A"], 3: None, 4: None, 5: None, 6: [], 7: None, 8: None, 9: None, 10: ["Si"], 11: ["Aa", "B"], 12: None, 13: None}
+FILES = {0: ["E"], 1: ["F", "G"], 2: ["A"], 3: None, 4: None, 5: None, 6: [], 7: None, 8: None, 9: None, 10: ["Si"], 11: ["Aa", "B"], 12: None, 13: None, 14: ["Dq", "Dr"], 15: ["Dt"]}
 
 
 def mk(name):
@@ -443,10 +443,13 @@ def run(ctx, B):
     s, t, closed6, md, oc = explore(ctx, exe, [[], ["P1"]], ["I1", "A" + La, "A" + Lb, "A" + Lp, "A" + Lq, "G" + La, "G" + Lb, "G" + Lp, "G" + Lq, "F", "a" + La, "a" + Lb, "g" + La, "g" + Lp], 30,
                                     san_exe=san, label="long-names")
     res["long_names"] = dict(states=s, transitions=t, closed=closed6, max_depth=md, outcomes=len(oc)); tot_s += s; tot_t += t
+    # 7. well-formed files written in unusual ways ('#N 6' over five columns, tabs, trailing blanks, numbers without a leading zero): what is stored is what the file says
+    s, t, closed7, md, oc = explore(ctx, exe, [[], ["P1"]], ["I1", "R14", "R15", "R0", "GDq", "GDr", "GDt", "F", "r14", "r15", "gDq", "gDt"], 30, san_exe=san, label="file-styles")
+    res["file_styles"] = dict(states=s, transitions=t, closed=closed7, max_depth=md, outcomes=len(oc)); tot_s += s; tot_t += t
     ctx.cov.update(states=max(tot_s, 1), transitions=max(tot_t, 1), traces_validated_against_impl=tot_t)
     ctx.add(evaluations=tot_t, nontrivial=tot_s)
     ctx.notes["explorations"] = res
-    ctx.cov["exhaustive"] = bool(closed and closed4 and closed5 and closed6)          # the core alphabet ran to closure; the wider alphabets are depth bounded (see explorations)
+    ctx.cov["exhaustive"] = bool(closed and closed4 and closed5 and closed6 and closed7)          # the core alphabet ran to closure; the wider alphabets are depth bounded (see explorations)
     ctx.sample(dict(history=["P2", "AA", "R1", "GA", "M", "F"], meaning="array at capacity 2, add A (growth), load file with F and G, copy A, scribble over the copy, free the array"))
     ctx.sample(dict(history=["Q1", "aA", "aB"], meaning="built-in collection filled to 511, add A (fills it), add B (must be refused, collection intact)"))
     ctx.cov["rule"] = ("explicit-state BFS over operation histories of the real crystal collection code: state = observable content through the public list/lookup API "
